@@ -291,6 +291,8 @@ SubsetLaw ==
          /\ ROr(heap[regs[obs'.a]].reg, heap[regs[obs'.b]].reg) = heap[regs[obs'.a]].reg
          /\ RAnd(heap[regs[obs'.a]].reg, heap[regs[obs'.b]].reg) = heap[regs[obs'.b]].reg]_svars
 
+\* simulation constraint: do not waste the first steps on singletons
+NoTrivialStart == TLCGet("level") > 3 \/ \A rr \in Regs : regs[rr] \notin {EID, WID}
 \* bound for simulation / exhaustive runs
 DepthBound == TLCGet("level") <= 40
 =============================================================================
